@@ -1360,9 +1360,10 @@ def make_externals(world):
                    ('or_', 'or'), ('xor', 'xor'), ('lshift', 'lshift'), ('rshift', 'rshift')):
         ext[f'operator.{nm}'] = Builtin(f'operator.{nm}',
                                         lambda i, a, k, n, _op=op: i.binop(_op, a[0], a[1], n))
-    from . import calendar_model, decimal_model
+    from . import calendar_model, decimal_model, regex_model
     calendar_model.register(ext)
     decimal_model.register(ext)
+    regex_model.register(ext)
     import ast as _ast
     ext['operator.neg'] = Builtin('operator.neg', lambda i, a, k, n: i.unaryop(_ast.USub(), a[0], n))
     ext['operator.pos'] = Builtin('operator.pos', lambda i, a, k, n: i.unaryop(_ast.UAdd(), a[0], n))
